@@ -74,6 +74,8 @@ type Config struct {
 	HostReusesDNSMap bool `json:"host_reuses_dns_map,omitempty"`
 	// LongIDs: token identifiers are 60+ bytes long and share a 54-byte prefix
 	LongIDs bool `json:"long_ids,omitempty"`
+	// TraceLog: the process log level is TRACE (otherwise INFO)
+	TraceLog bool `json:"trace_log,omitempty"`
 }
 
 // Event is one step of a run; a replay file is a Config plus a list of Events.
@@ -582,6 +584,11 @@ func (w *World) CheckBuilt(fn string, args [][]byte, data string) {
 		return
 	}
 	pf, pa, err := realCallParser.ParseData(data)
+	// the parsed arguments belong to the caller: it appends to each (the system contract builds
+	// "ticker-" from an argument that way) and then reads them all
+	for i := range pa {
+		_ = append(pa[i], 0x2d, 0x2d)
+	}
 	if err != nil || pf != fn || !eqArgs(pa, args) {
 		w.violate(spec.Violation{Props: spec.P("C12"), Clause: "build-parse", Detail: fmt.Sprintf("%q was built from %s%x and parses to %s%x (err=%v)", data, fn, args, pf, pa, err)})
 	}
@@ -670,6 +677,9 @@ func (w *World) wireChecks(ex *Exec, vd *spec.Verdict) {
 		}
 		sfn, sargs, serr := spec.ParseData(t.Data)
 		rfn, rargs, rerr := realCallParser.ParseData(t.Data)
+		for i := range rargs {
+			_ = append(rargs[i], 0x2d, 0x2d) // (the caller owns what the parser returned)
+		}
 		w.Stats.ParserChecks++
 		if (serr == nil) != (rerr == nil) {
 			w.violate(spec.Violation{Props: spec.P("C10", "C12"), Clause: "wire-parse", Detail: fmt.Sprintf("emitted data %q: call-arguments parser err=%v, documented grammar err=%v", t.Data, rerr, serr)})
